@@ -32,6 +32,7 @@ func checkC17(c *core.Ctx, r *core.Report) {
 	a := lockAnalysis(c)
 	c17Admission(c, r, newSummaries(c))
 	c17Cleaned(c, r, a)
+	c17SingleAdmitter(c, r, a, newSummaries(c))
 	c17TerminalStates(c, r)
 
 	// ---------------------------------------------------------------- (1)
